@@ -888,4 +888,36 @@ example : (⟨.temporary, [1, 2]⟩ : Seg).partialCmp ⟨.static, [1, 2, 0]⟩ =
 example : ¬ Inv ⟨[⟨.static, [1, 2, 3, 4, 5]⟩], 100⟩ := by decide
 example : ¬ Inv ⟨[⟨.temporary, []⟩, ⟨.static, [1, 2]⟩], 2⟩ := by decide
 
+/-! ### Non-vacuity for the provided `Buf` methods -/
+
+/-- Evaluates the provided `Buf` methods (recursions on a measure, which `decide` does not unfold) on
+    concrete values by rewriting with their defining equations. -/
+local macro "buf_eval" : tactic => `(tactic|
+  simp [ex, Chain.run, Chain.step, Except.map, Chain.copyToBytes, Chain.copyToSlice, Chain.getU8, Chain.getU16, Chain.getU32,
+    Chain.hasRemaining, Chain.chunksVectored, Seg.copyToBytes, Seg.copyToSlice, Seg.getU8, Seg.getU16, Seg.getU32, Seg.buf,
+    BufImpl.copyToBytes, BufImpl.copyToSlice, BufImpl.takeLoop, BufImpl.copyLoop, BufImpl.getU8, BufImpl.getU16,
+    BufImpl.getU32, BufImpl.getFixed, BufImpl.hasRemaining, BufImpl.chunksVectored, fromBe,
+    Chain.buf, Chain.remaining, Chain.chunk, Chain.advance, Chain.new, advLoop_cons, advLoop_zero, advLoop_nil_succ, seg_advance_ok, seg_advance_err])
+
+example : ex.copyToBytes 3 = .ok (⟨[⟨.static, [4, 5]⟩], 2⟩, [1, 2, 3]) := by buf_eval
+example : ex.copyToSlice 5 = .ok (⟨[], 0⟩, [1, 2, 3, 4, 5]) := by buf_eval
+example : ex.copyToBytes 6 = .error ⟨ex⟩ ∧ ex.copyToSlice 6 = .error ⟨ex⟩ := by buf_eval
+example : ex.getU8 = .ok (⟨[⟨.temporary, [2]⟩, ⟨.static, [3, 4, 5]⟩], 4⟩, 1) := by buf_eval
+example : ex.getU16 = .ok (⟨[⟨.static, [3, 4, 5]⟩], 3⟩, 0x0102) := by buf_eval
+example : ex.getU32 = .ok (⟨[⟨.static, [5]⟩], 1⟩, 0x01020304) := by buf_eval
+example : (⟨[⟨.static, [1, 2, 3]⟩], 3⟩ : Chain).getU32 = .error ⟨⟨[⟨.static, [1, 2, 3]⟩], 3⟩⟩ := by buf_eval
+example : ex.hasRemaining = true ∧ ex.chunksVectored 4 = [[1, 2]] ∧ ex.chunksVectored 0 = [] ∧
+    Chain.new.hasRemaining = false ∧ Chain.new.chunksVectored 4 = [] := by buf_eval
+example : ex.run [.getU8, .copyToBytes 2, .getU16] =
+    .ok (⟨[], 0⟩, [.u8 1, .copied [2, 3], .u16 0x0405]) := by buf_eval
+example : ex.run [.copyToSlice 4, .getU16] = .error (⟨⟨[⟨.static, [5]⟩], 1⟩⟩, [.copied [1, 2, 3, 4]]) := by buf_eval
+example : (⟨.temporary, [1, 2, 3]⟩ : Seg).copyToBytes 2 = .ok (⟨.temporary, [3]⟩, [1, 2]) ∧
+    (⟨.static, [1, 2, 3]⟩ : Seg).getU16 = .ok (⟨.static, [3]⟩, 0x0102) ∧
+    (⟨.static, [1, 2, 3]⟩ : Seg).getU32 = .error ⟨⟨.static, [1, 2, 3]⟩⟩ := by buf_eval
+/-- Without the invariant the statements fail: a chain whose cached total was deducted twice refuses
+    bytes it holds. -/
+example : (⟨[⟨.static, [5, 6]⟩], 0⟩ : Chain).copyToBytes 1 = .error ⟨⟨[⟨.static, [5, 6]⟩], 0⟩⟩ := by buf_eval
+example : InRange ex .getU32 ∧ InRange ex (.copyToBytes 5) ∧ ¬ InRange ex (.copyToSlice 6) ∧ ¬ InRange Chain.new .getU8 := by decide
+example : Vec.beValue [1, 2] = 0x0102 ∧ Vec.getBe [1, 2, 3, 4, 5] 4 = ([5], 0x01020304) ∧ Vec.copyOut [1, 2, 3] 2 = ([3], [1, 2]) := by decide
+
 end Penguin.C20
